@@ -1,0 +1,34 @@
+//go:build verif
+
+/*
+ * Verification exports (C31: merge operator). Add-only; compiled only with `-tags verif`.
+ */
+
+package badger
+
+// VerifCompact runs the operator's merge compaction (MergeOperator.compact, the body of the
+// background loop) and then waits until its asynchronous write-back — if it made one — has been
+// applied: requests are served in FIFO order by doWrites, so an empty request sent afterwards
+// completes only after it.
+func (op *MergeOperator) VerifCompact() error {
+	if err := op.compact(); err != nil {
+		return err
+	}
+	return op.db.VerifWriteBarrier()
+}
+
+// VerifStop is MergeOperator.Stop (which runs one last merge compaction) followed by the same
+// barrier.
+func (op *MergeOperator) VerifStop() error {
+	op.Stop()
+	return op.db.VerifWriteBarrier()
+}
+
+// VerifWriteBarrier returns when every write request queued before the call has been applied.
+func (db *DB) VerifWriteBarrier() error {
+	req, err := db.sendToWriteCh(nil)
+	if err != nil {
+		return err
+	}
+	return req.Wait()
+}
